@@ -1210,6 +1210,9 @@ def split_statements(src):
     return out
 
 
+FMT_STATS = dict(processes=0, refused=0)
+
+
 def fmt_find_crash(work, names, stop, per_file=PER_CASE):
     """`ucg fmt` over the files (one process); -> None, or (name, status, detail) of the first file on which fmt does not end with exit status 0 / 1.
     fmt stops at the first file it cannot format (exit 1), hiding the files after it, so a batch that does not exit 0 is split and re-run."""
@@ -1222,13 +1225,22 @@ def fmt_find_crash(work, names, stop, per_file=PER_CASE):
         rc, err = p.returncode, p.stderr[-400:].decode('utf-8', 'replace').strip().replace('\n', ' | ')
     except subprocess.TimeoutExpired:
         rc, err = 'timeout', ''
+    FMT_STATS['processes'] += 1
     if rc == 0 and 'panicked at' not in err:
         return None
     if len(names) == 1:
         if rc == 1 and 'panicked at' not in err:
+            FMT_STATS['refused'] += 1
             return None
+        if rc == 'timeout':
+            # guards against load spikes: the file alone gets a second run with twice the time
+            try:
+                subprocess.run([exe, 'fmt'] + names, cwd=work, stdout=subprocess.DEVNULL, stderr=subprocess.DEVNULL, stdin=subprocess.DEVNULL, timeout=2 * per_file)
+                return None
+            except subprocess.TimeoutExpired:
+                pass
         stop.set()
-        return (names[0], 'TIMEOUT', 'no exit within %.0f s' % per_file) if rc == 'timeout' else (names[0], 'CRASH', 'exit status %s: %s' % (rc, err))
+        return (names[0], 'TIMEOUT', 'no exit within %.0f s, twice' % per_file) if rc == 'timeout' else (names[0], 'CRASH', 'exit status %s: %s' % (rc, err))
     half = len(names) // 2
     return fmt_find_crash(work, names[:half], stop, per_file) or fmt_find_crash(work, names[half:], stop, per_file)
 
@@ -1239,6 +1251,7 @@ def standin_fmt_comments_everywhere(tier, seed):
     thorough = tier == 'thorough'
     budget = 75.0 if thorough else 12.0
     t0 = time.time()
+    FMT_STATS.update(processes=0, refused=0)
     forms = CMT_FORMS_ALL if thorough else CMT_FORMS_QUICK
     cases = []          # (source, origin, boundary description)  in priority order
 
@@ -1249,19 +1262,19 @@ def standin_fmt_comments_everywhere(tier, seed):
                 cases.append((with_comment(toks, tail, i, f), origin, 'boundary %d of %d, form %s' % (i, len(toks), f)))
     # -- 1. the tour: every boundary x every form; all boundaries at once; pairs of boundaries
     for k, src in enumerate(FMT_TOUR):
-        singles(src, 'tour[%d]' % k)
+        singles(src, 'the one-construct program: ' + src, fs=CMT_FORMS_ALL)
     n_tour1 = len(cases)
     for k, src in enumerate(FMT_TOUR):
         toks, tail = lex(src)
         n = len(toks) + 1
         for f in ('line', 'trailing', 'group2'):
-            cases.append((with_comments(toks, tail, [(i, f) for i in range(n)]), 'tour[%d]' % k, 'all %d boundaries, form %s' % (n, f)))
+            cases.append((with_comments(toks, tail, [(i, f) for i in range(n)]), 'the one-construct program: ' + src, 'all %d boundaries, form %s' % (n, f)))
         pairs = [(i, j) for i in range(n) for j in range(i + 1, n)]
         if len(pairs) > (120 if thorough else 12):
             pairs = rnd.sample(pairs, 120 if thorough else 12)
         for i, j in pairs:
             fi, fj = rnd.choice(['line', 'trailing', 'group2']), rnd.choice(['line', 'trailing', 'group2'])
-            cases.append((with_comments(toks, tail, [(i, fi), (j, fj)]), 'tour[%d]' % k, 'boundaries %d (%s) and %d (%s) of %d' % (i, fi, j, fj, n - 1)))
+            cases.append((with_comments(toks, tail, [(i, fi), (j, fj)]), 'the one-construct program: ' + src, 'boundaries %d (%s) and %d (%s) of %d' % (i, fi, j, fj, n - 1)))
     n_tour = len(cases)
     # -- 2. every top-level statement of every shipped file that parses (and of generated programs), as a program of its own
     shipped = shipped_files()
@@ -1276,24 +1289,33 @@ def standin_fmt_comments_everywhere(tier, seed):
             if st_.strip() and st_ not in seen:
                 seen.add(st_)
                 stmts.append(('%s statement %d' % (p, k + 1), st_))
-    stmts += [('generated program', g) for g in good_gen]
+    n_ship_stmts = len(stmts)
+    for g in good_gen:
+        for st_ in split_statements(g):
+            if st_.strip() and st_ not in seen:
+                seen.add(st_)
+                stmts.append(('generated program, statement', st_))
     n_bound_stmts = sum(len(lex(s_)[0]) + 1 for _, s_ in stmts)
+    # -- 2. whole shipped files (the statements in their context): a seeded sample of boundaries
+    flat = [(k, i) for k, (_, t) in enumerate(good_files) for i in range(len(lex(t)[0]) + 1)]
+    for k, i in rnd.sample(flat, min(len(flat), 3000 if thorough else 120)):
+        singles(good_files[k][1], good_files[k][0] + ' (whole file)', boundaries=[i], fs=[rnd.choice(forms)])
+    n_file = len(cases) - n_tour
+    # -- 3. the statements
     if thorough:
+        # EVERY boundary x the four main forms, the three other forms on a seeded third of the boundaries; statements in seeded order (the time budget cuts the tail)
         order = list(range(len(stmts)))
         rnd.shuffle(order)
         for k in order:
-            singles(stmts[k][1], stmts[k][0])
+            singles(stmts[k][1], stmts[k][0], fs=CMT_FORMS_QUICK)
+            nb = len(lex(stmts[k][1])[0]) + 1
+            singles(stmts[k][1], stmts[k][0], boundaries=[i for i in range(nb) if rnd.random() < 1 / 3.0], fs=CMT_FORMS_ALL[len(CMT_FORMS_QUICK):])
     else:
         # a seeded sample of (statement, boundary, form) triples
         flat = [(k, i) for k, (_, s_) in enumerate(stmts) for i in range(len(lex(s_)[0]) + 1)]
         for k, i in rnd.sample(flat, min(len(flat), 1200)):
             singles(stmts[k][1], stmts[k][0], boundaries=[i], fs=[rnd.choice(forms)])
-    n_stmt = len(cases) - n_tour
-    # -- 3. whole shipped files (the statements in their context): a seeded sample of boundaries
-    flat = [(k, i) for k, (_, t) in enumerate(good_files) for i in range(len(lex(t)[0]) + 1)]
-    for k, i in rnd.sample(flat, min(len(flat), 4000 if thorough else 120)):
-        singles(good_files[k][1], good_files[k][0] + ' (whole file)', boundaries=[i], fs=[rnd.choice(forms)])
-    n_file = len(cases) - n_tour - n_stmt
+    n_stmt = len(cases) - n_tour - n_file
 
     work = tempfile.mkdtemp(prefix='verif_c04c_')
     stop = threading.Event()
@@ -1303,9 +1325,11 @@ def standin_fmt_comments_everywhere(tier, seed):
         # batches: small programs 200 per process, whole files 25 per process
         batches, i = [], 0
         while i < len(cases):
-            size = 200 if i < n_tour + n_stmt else 25
-            batches.append((i, min(len(cases), i + size)))
-            i += size
+            whole = n_tour <= i < n_tour + n_file
+            size = 25 if whole else 200
+            end = min(len(cases), i + size, n_tour + n_file if whole else len(cases), n_tour if i < n_tour else len(cases))
+            batches.append((i, end))
+            i = end
         lock = threading.Lock()
         it = iter(batches)
 
@@ -1329,20 +1353,24 @@ def standin_fmt_comments_everywhere(tier, seed):
                         found.append((int(r[0][1:-4]),) + r[1:])
                     else:
                         done[0] += b[1] - b[0]
-        par([worker] * 8)
+        par([worker] * 12)
     finally:
         shutil.rmtree(work, ignore_errors=True)
     n_run = done[0]
     bound = ('real binary `ucg fmt` on programs with a `// c` comment inserted at a token boundary (forms: %s; after the last token also a comment without line end): '
-             '(1) %d one-construct programs written from the language reference: EVERY boundary x every form (%d texts) + all boundaries at once x 3 forms + %s pairs of boundaries per program; '
-             '(2) the %d distinct top-level statements of the %d shipped .ucg files that parse + %d generated programs, each as a program of its own (%d boundaries): %s (%d texts); '
-             '(3) %d whole shipped files with a comment at a seeded sample of boundaries (%d texts); %d of the %d texts were run within the time budget of %.0f s: exit status 0 or 1, no panic message'
-             % (', '.join(forms), len(FMT_TOUR), n_tour1, 'up to 120 seeded' if thorough else '12 seeded', len(stmts) - len(good_gen), len(good_files), len(good_gen), n_bound_stmts,
-                'EVERY boundary x every form, statements in seeded order' if thorough else 'a seeded sample of 1200 (statement, boundary, form) triples', n_stmt, len(good_files), n_file, n_run, len(cases), budget))
+             '(1) %d one-construct programs written from the language reference: EVERY boundary x each of the 7 forms line / group2 / two_groups / trailing / indented / crlf / empty (%d texts) + all boundaries at once x 3 forms + %s pairs of boundaries per program; '
+             '(2) %d whole shipped files with a comment at a seeded sample of boundaries (%d texts); '
+             '(3) the %d distinct top-level statements of the %d shipped .ucg files that parse + %d distinct statements of %d generated programs, each as a program of its own (%d boundaries): %s (%d texts); '
+             '%d of the %d texts were run within the time budget of %.0f s (in this order): exit status 0 or 1, no panic message'
+             % (', '.join(forms), len(FMT_TOUR), n_tour1, 'up to 120 seeded' if thorough else '12 seeded', len(good_files), n_file, n_ship_stmts, len(good_files), len(stmts) - n_ship_stmts, len(good_gen), n_bound_stmts,
+                'EVERY boundary x {line, group2, two_groups, trailing} + the other forms on a seeded third of the boundaries, statements in seeded order' if thorough else 'a seeded sample of 1200 (statement, boundary, form) triples',
+                n_stmt, n_run, len(cases), budget))
     runs = []
     for k, st, pl in sorted(found):
         runs.append(('ucg fmt', cases[k][0], st, pl))
     r = judge('fmt_comments_everywhere', bound, n_run + len(found), runs)
+    if r['status'] == 'ok' and FMT_STATS['refused']:
+        r['detail'] = (r.get('detail', '') + ' %d texts refused by fmt with exit status 1 (a diagnostic)' % FMT_STATS['refused']).strip()
     if r['status'] == 'violation':
         for k, st, pl in sorted(found):
             if cases[k][0] == r['input']['source']:
